@@ -270,7 +270,13 @@ def g_cleanup_case(rng):
         })
     for f in flows:
         if f["parent"] and f["parent"] != "gone" and rng.random() < 0.9:
-            flows[int(f["parent"][1:])]["children"].append(f["uid"])
+            # a flow activated n times is listed n times by its parent
+            for _ in range(max(1, f["activated"]) if rng.random() < 0.5 else 1):
+                flows[int(f["parent"][1:])]["children"].append(f["uid"])
+    for f in flows:
+        # open scopes list flows started in them (children, mostly)
+        popl = f["children"] + [g["uid"] for g in flows]
+        f["scope_flows"] = [rng.sample(popl, min(len(popl), rng.randrange(0, 3))) for _ in range(rng.randrange(0, 3))]
     if rng.random() < 0.1 and flows:
         rng.choice(flows)["children"].append("stale")
     idx = {}
@@ -300,8 +306,12 @@ SUBFLOWS = {
     "act": "flow act\n  start TestAction(v=1) as $a\n  match $a.Finished() as $fin\n  send ActDone(r=$fin.result)\n",
     "nest": "flow nest\n  start helper(7) as $inner\n  match $inner.Finished()\n  send NestDone()\n",
     "selfwatch": "flow selfwatch\n  match FlowStarted() as $fs\n  match Never()\n",
+    # one flow activated by two parents that end at different times (its parent_uid names the first activator)
+    "shared": "flow shared\n  match Ping() as $e\n  send SharedPong(x=$e.x)\n",
+    "par1": "flow par1\n  activate shared\n  match Stop1()\n  send Par1Done()\n",
+    "par2": "flow par2\n  activate shared\n  match Stop2()\n  send Par2Done()\n",
 }
-EVENTS = ["E1", "E2", "E3", "E4", "Ping", "Tick", "Show", "Go", "A", "B", "C"]
+EVENTS = ["E1", "E2", "E3", "E4", "Ping", "Tick", "Show", "Go", "A", "B", "C", "Stop1", "Stop2"]
 
 
 def g_program(rng, want=None):
@@ -393,14 +403,33 @@ def g_program(rng, want=None):
             w = newvar()
             lines.append(f"  match {v}.Finished() as {w}")
             lines.append(f"  send Fin{len(lines)}(fs={w}.final_script)")
-        elif r < 0.94:
+        elif r < 0.93:
             used.add("helper")
             lines.append(f"  await helper({rng.randrange(1, 4)})")
             lines.append(f"  send Awaited{len(lines)}()")
+        elif r < 0.95:
+            # the two-parents pattern
+            used.update(["shared", "par1", "par2"])
+            lines.append("  start par1")
+            lines.append("  start par2")
         elif r < 0.97:
             lines.append("  when E1()\n    send W1()\n  or when E2()\n    send W2()")
         else:
             lines.append(rng.choice(["  match (E1() and E2())", "  match E1() or E3()"]))
+    # a continuation that asks the interpreter which flows it knows (`flow_id in state.flow_id_states`, the system action the
+    # llm.co library flows use): inserted after some waiting statement and/or at the end
+    if rng.random() < 0.45:
+        known = sorted(used - {"selfwatch"}) + ["nosuch", "main"]
+        probes = []
+        for _ in range(rng.randrange(1, 3)):
+            f = rng.choice(known)
+            probes.append(f'  $kn = await CheckValidFlowExistsAction(flow_id="{f}")')
+            probes.append(f"  send Known{len(lines) + len(probes)}(f=\"{f}\", k=$kn)")
+        pos = [i for i, l in enumerate(lines) if l.startswith(("  match ", "  await "))]
+        at = (rng.choice(pos) + 1) if pos and rng.random() < 0.5 else len(lines)
+        if at == len(lines):
+            probes = [f"  match {rng.choice(['E1', 'E2', 'Tick'])}()"] + probes
+        lines[at:at] = probes
     if rng.random() < 0.7:
         lines.append("  match Never()")
     else:
@@ -720,6 +749,7 @@ def run_cleanup(case):
         fs.status_updated = now + timedelta(microseconds=f["updated"])
         fs.activated = f["activated"]
         fs.action_uids = list(f["action_uids"])
+        fs.scopes = {f"s{k}": (list(l), []) for k, l in enumerate(f.get("scope_flows", []))}
         fss[f["uid"]] = fs
     st = flows.State(flow_states=fss, flow_configs={})
     st.flow_id_states = {k: [fss[u] for u in us] for k, us in case["idx"]}
@@ -735,12 +765,12 @@ def run_cleanup(case):
         b = dict((k["s"], v) for k, v in before[u]["D"][1])
         a = dict((k["s"], v) for k, v in pv.observe(fs)["D"][1])
         for fld in a:
-            if fld in ("child_flow_uids", "heads"):
+            if fld in ("child_flow_uids", "heads", "scopes"):
                 continue
             if a[fld] != b[fld]:
                 unchanged = False
     return {
-        "flows": [{"uid": u, "children": list(fs.child_flow_uids), "heads": [{"uid": h.uid, "n_scores": len(h.matching_scores)} for h in fs.heads.values()]} for u, fs in st.flow_states.items()],
+        "flows": [{"uid": u, "children": list(fs.child_flow_uids), "scope_flows": [list(v[0]) for v in fs.scopes.values()], "heads": [{"uid": h.uid, "n_scores": len(h.matching_scores)} for h in fs.heads.values()]} for u, fs in st.flow_states.items()],
         "idx": [[k, [fs.uid for fs in v]] for k, v in st.flow_id_states.items()],
         "actions": list(st.actions.keys()),
         "actions_same_objects": all(st.actions[a] is before_actions[a] for a in st.actions),
@@ -772,6 +802,14 @@ def _canon_outputs(steps):
             for m in _UUID_RE.finditer(json.dumps(ev)):
                 names.setdefault(m.group(0), f"#{len(names)}")
     return json.loads(_UUID_RE.sub(sub, text))
+
+
+def _system_action(state, start_event):
+    import asyncio
+
+    from nemoguardrails.actions.v2_x.generation import LLMGenerationActionsV2dotx
+
+    return asyncio.run(LLMGenerationActionsV2dotx.check_if_flow_exists(None, state=state, flow_id=start_event.get("flow_id")))
 
 
 class _Run:
@@ -812,6 +850,23 @@ class _Run:
                 if e["type"].startswith("Start") and e["type"].endswith("Action") and "action_uid" in e:
                     self.started.append((e["action_uid"], e["type"][5:]))
                 out.append({k: _plain(v) for k, v in e.items() if k not in VOLATILE})
+            # system actions are executed by the runtime between two run_to_completion calls: do what it does for the one the
+            # programs use (the REAL action function on the REAL state), and feed its ...ActionFinished event right away
+            todo = [dict(e) for e in self.state.outgoing_events if e["type"] == "StartCheckValidFlowExistsAction"]
+            rounds = 0
+            while todo and rounds < 6:
+                rounds += 1
+                e = todo.pop(0)
+                self.finished.add(e["action_uid"])
+                res = _system_action(self.state, e)
+                sm.run_to_completion(self.state, {"type": "CheckValidFlowExistsActionFinished", "action_uid": e["action_uid"], "action_name": "CheckValidFlowExistsAction",
+                                                  "status": "success", "is_success": True, "return_value": res, "events": []})
+                for e2 in self.state.outgoing_events:
+                    if e2["type"].startswith("Start") and e2["type"].endswith("Action") and "action_uid" in e2:
+                        self.started.append((e2["action_uid"], e2["type"][5:]))
+                    out.append({k: _plain(v) for k, v in e2.items() if k not in VOLATILE})
+                    if e2["type"] == "StartCheckValidFlowExistsAction":
+                        todo.append(dict(e2))
         except Exception as e:  # noqa
             out = "EXC:" + type(e).__name__
         self.outs.append(out)
@@ -1140,14 +1195,29 @@ def oracle(case, obs):
         if "exc" in obs:
             # a missing action / stale index is outside the property (the generator plants a few to exercise the error path)
             return None
-        keep = [f["uid"] for f in case["flows"] if not _removable(f, case["now"])]
+        must_keep = [f["uid"] for f in case["flows"] if not _removable(f, case["now"])]
+        # the parent instance of an ACTIVATED flow is still looked up when that flow is deactivated
+        # (_is_reference_activated_flow): discarding it changes later behaviour (KeyError) -> it has to stay
+        needed = set(f["parent"] for f in case["flows"] if f["activated"] > 0 and f["parent"])
         got = [f["uid"] for f in obs["flows"]]
-        if got != keep:
-            gone = [u for u in keep if u not in got]
-            extra = [u for u in got if u not in keep]
+        gone = [u for u in must_keep if u not in got]
+        extra = [u for u in got if u not in must_keep and u not in needed]
+        if gone or extra:
             return f"clean-up removed instances it must keep {gone} / kept instances past the age {extra}"
+        dang = [u for u in needed if u in [f["uid"] for f in case["flows"]] and u not in got]
+        if dang:
+            return f"clean-up discarded {dang}, the parent instance of a still activated flow: its deactivation will raise KeyError"
+        keep = got
         if not obs["other_fields_unchanged"]:
             return "clean-up changed a field of a remaining instance"
+        # which flow ids are known (`flow_id in state.flow_id_states`) is observable (CheckValidFlowExistsAction, used by the
+        # llm.co flows): idle time must not change it, and every entry lists the remaining instances of its flow id
+        if [k0 for k0, _ in obs["idx"]] != [k0 for k0, _ in case["idx"]]:
+            return f"clean-up changed the set of known flow ids: {[k0 for k0, _ in case['idx']]} -> {[k0 for k0, _ in obs['idx']]}"
+        for k0, us in obs["idx"]:
+            exp = [f["uid"] for f in case["flows"] if f["flow_id"] == k0 and f["uid"] in keep]
+            if us != exp:
+                return f"flow_id_states[{k0!r}] = {us} after the clean-up, remaining instances {exp}"
         refd = []
         for f in case["flows"]:
             if f["uid"] in keep:
@@ -1161,6 +1231,9 @@ def oracle(case, obs):
             exp = list(f["children"])
             if [c for c in g["children"] if c not in removed and c in exp] != [c for c in exp if c not in removed]:
                 return f"clean-up dropped a live child uid from {f['uid']}: {g['children']} vs {exp}"
+            for l0, l1 in zip(f.get("scope_flows", []), g.get("scope_flows", [])):
+                if [c for c in l0 if c not in removed] != [c for c in l1 if c not in removed]:
+                    return f"clean-up dropped a live flow uid from a scope of {f['uid']}: {l1} vs {l0}"
         return None
     if "skip" in obs:
         return None
@@ -1288,6 +1361,10 @@ def signature(case, obs, msg):
             return "aliased-list"
         return None
     if k == "cleanup":
+        # region of the open finding "cleanup-dangling-parent": some old-rule removable instance is the parent of an activated flow
+        needed = set(f["parent"] for f in case["flows"] if f["activated"] > 0 and f["parent"])
+        if any(_removable(f, case["now"]) and f["uid"] in needed for f in case["flows"]):
+            return "cleanup-dangling-parent"
         return None
     if k == "rails":
         return None
@@ -1304,6 +1381,8 @@ def signature(case, obs, msg):
         if p["kind"] == "typeError" and facts.get("action_nonjson"):
             return "action-payload-not-json"
         return None
+    if p["what"] == "ageing-diverges" and "KeyError" in json.dumps(p.get("copy")) and len(re.findall(r"activate shared", case["src"])) >= 2:
+        return "cleanup-dangling-parent"
     if p["what"] == "restore-diverges":
         if facts.get("aliased_lists") and ".append(" in case["src"]:
             return "aliased-list"
